@@ -178,11 +178,26 @@ func (f *fgen) create() txgen.Tx {
 	case 1:
 		initial = new(big.Int).Div(goal, big.NewInt(2))
 	}
+	tags := []string{"focused"}
+	if scenario := len(f.priority) > 0 && f.priority[len(f.priority)-1] == string(id); !scenario && len(f.m.Order) > 0 && f.u.N(8, "cr-reuse") == 0 {
+		// the sender chooses the id: ask for one that exists already, in whatever stage it is (terminal
+		// ones preferred: each terminal stage has a store of its own)
+		cands := f.byStage(SZ, SZF, SX, SM, SC)
+		if len(cands) == 0 || f.u.N(3, "cr-reuse-any") == 0 {
+			cands = nil
+			for _, oid := range f.m.Order {
+				cands = append(cands, f.m.Props[oid])
+			}
+		}
+		old := cands[f.u.N(len(cands), "cr-reuse-which")]
+		id = governance.ProposalID(old.ID)
+		tags = append(tags, "id-reused", "id-reused-from-"+string(old.Stage))
+	}
 	m := agov.CreateProposal{ProposalID: id, ProposalType: typ, Headline: "h", Description: "d", Proposer: usr.Addr,
 		InitialFunding: txgen.Amt("OLT", initial), FundingDeadline: fundDL, FundingGoal: balance.NewAmountFromBigInt(goal),
 		VotingDeadline: voteDL, PassPercentage: w.P.PropPassPct, ConfigUpdate: cfg}
 	tx := txgen.ProposalCreate(usr, m, w.Fee, w.Memo())
-	tx.Tags = []string{"focused"}
+	tx.Tags = tags
 	tx.Note = fmt.Sprintf("%s:%d:%d:%d:%d", id, ui, fundDL, voteDL, int(typ))
 	return tx
 }
